@@ -132,6 +132,9 @@ class LvUnit(Unit):
         v = bt(recipe["v"])
         return (v, len(v))
 
+    def repro(self, recipe):
+        return f"CfdpLv(bytes.fromhex('{bt(recipe['v']).hex()}'))"
+
     def length_bits(self, raw):
         return set(range(0, 8))
 
@@ -167,6 +170,9 @@ class GenericTlvUnit(_TlvUnit):
     def expected(self, recipe):
         return (recipe["t"], bt(recipe["v"]))
 
+    def repro(self, recipe):
+        return f"CfdpTlv(TlvType({recipe['t']}), bytes.fromhex('{bt(recipe['v']).hex()}'))"
+
 
 # -------------------------------------------------------------------------- EntityIdTlv
 class EntityIdUnit(_TlvUnit):
@@ -195,6 +201,9 @@ class EntityIdUnit(_TlvUnit):
     def expected(self, recipe):
         return (R.T_ENTITY_ID, bt(recipe["id"]))
 
+    def repro(self, recipe):
+        return f"EntityIdTlv(bytes.fromhex('{bt(recipe['id']).hex()}'))"
+
 
 # ------------------------------------------------------------------------- FlowLabelTlv
 class FlowLabelUnit(_TlvUnit):
@@ -218,6 +227,9 @@ class FlowLabelUnit(_TlvUnit):
 
     def expected(self, recipe):
         return (R.T_FLOW_LABEL, bt(recipe["v"]))
+
+    def repro(self, recipe):
+        return f"FlowLabelTlv(bytes.fromhex('{bt(recipe['v']).hex()}'))"
 
 
 # -------------------------------------------------------------- FaultHandlerOverrideTlv
@@ -244,6 +256,9 @@ class FaultHandlerUnit(_TlvUnit):
 
     def expected(self, recipe):
         return (R.T_FAULT_HANDLER, recipe["cc"], recipe["hc"], R.fault_handler_value(recipe["cc"], recipe["hc"]))
+
+    def repro(self, recipe):
+        return f"FaultHandlerOverrideTlv(ConditionCode({recipe['cc']}), FaultHandlerCode({recipe['hc']}))"
 
 
 # ------------------------------------------------------------------ FileStoreRequestTlv
@@ -291,6 +306,9 @@ class FsRequestUnit(_TlvUnit):
 
     def expected(self, recipe):
         return (R.T_FILESTORE_REQUEST, recipe["a"], recipe["n1"], _name_or_none(recipe["a"], recipe["n2"]))
+
+    def repro(self, recipe):
+        return f"FileStoreRequestTlv(FilestoreActionCode({recipe['a']}), {recipe['n1']!r}, {recipe['n2']!r})"
 
     def length_bits(self, raw):
         return _fs_length_bits(raw, False)
@@ -362,6 +380,11 @@ class FsResponseUnit(_TlvUnit):
         a = recipe["a"]
         return (R.T_FILESTORE_RESPONSE, a, (a << 4) | recipe["s"], recipe["n1"], _name_or_none(a, recipe["n2"]), bt(recipe["msg"]))
 
+    def repro(self, recipe):
+        a = recipe["a"]
+        return (f"FileStoreResponseTlv(FilestoreActionCode({a}), FilestoreResponseStatusCode({(a << 4) | recipe['s']:#04x}), "
+                f"{recipe['n1']!r}, {recipe['n2']!r}, CfdpLv(bytes.fromhex('{bt(recipe['msg']).hex()}')))")
+
     def length_bits(self, raw):
         return _fs_length_bits(raw, True)
 
@@ -389,6 +412,9 @@ class MsgToUserUnit(_TlvUnit):
 
     def expected(self, recipe):
         return (R.T_MESSAGE_TO_USER, bt(recipe["v"]))
+
+    def repro(self, recipe):
+        return f"MessageToUserTlv(bytes.fromhex('{bt(recipe['v']).hex()}'))"
 
 
 UNITS = {u.name: u for u in (LvUnit(), GenericTlvUnit(), EntityIdUnit(), FlowLabelUnit(), FaultHandlerUnit(), FsRequestUnit(), FsResponseUnit(), MsgToUserUnit())}
